@@ -556,6 +556,14 @@ def check(pid, tier):
         import traceback
 
         crashes.append(f"S1: {type(e).__name__}: {e}\n{traceback.format_exc()[-600:]}")
+    try:
+        from . import s6key
+
+        obs += s6key.verify_key(pid)  # a shared specialisation key makes the round trip return a look-alike
+    except Exception as e:  # noqa
+        import traceback
+
+        crashes.append(f"S6: {type(e).__name__}: {e}\n{traceback.format_exc()[-600:]}")
     pts = rt_lattice(tier)
     res = runner.run_pool(rt_task, [(pid, p) for p in pts], chunks=4)
     for r in res:
@@ -571,6 +579,6 @@ def check(pid, tier):
         trusted={"A6 leaf inverses on conforming values: dec_H(enc_H(v)) = v for hole types, int(i) = i for ints; CPython timezone(offset) range and tzname format (cross-checked exhaustively each run)",
                  "A5 regex-structural rule (cross-checked exhaustively against re/int on the pattern's language each run)",
                  "aliased fields round-trip only with serialize_by_alias or allow_deserialization_not_by_alias (documented), which the lattice respects"},
-        functions=["core/helpers.py:parse_timezone (S1, symbolic on the AST)", "<generated> __mashumaro_to_dict__ and __mashumaro_from_dict__ composed"],
+        functions=["core/helpers.py:parse_timezone (S1, symbolic on the AST)", "core/meta/helpers.py:hash_type_args (S6: key of generic specialisations = digest of full type names, symbolic on the AST)", "<generated> __mashumaro_to_dict__ and __mashumaro_from_dict__ composed"],
         crashes=crashes,
     )
